@@ -145,6 +145,45 @@ func (w *World) NewMachine(goal Term) *Machine {
 // Next finds the next solution. ball != nil: the execution ended with an uncaught exception.
 // err != nil: the reference gave up (budget / unsupported construct) - no verdict.
 func (m *Machine) Next() (ok bool, ball Term, err error) {
+	for {
+		var retry bool
+		ok, ball, err, retry = m.next1()
+		if !retry {
+			return
+		}
+	}
+}
+
+// next1 runs until an answer, the end, or a panic raised outside a step (a redo of a
+// non-deterministic built-in); a ball raised there is handled like any other throw.
+func (m *Machine) next1() (ok bool, ball Term, err error, retry bool) {
+	defer func() {
+		if r := recover(); r != nil {
+			switch r := r.(type) {
+			case ballPanic:
+				if m.handleThrow(r.ball) {
+					m.first = true // resume the main loop without backtracking
+					retry = true
+					return
+				}
+				m.done = true
+				ok, ball, err = false, r.ball, nil
+			case unsupportedPanic:
+				m.done = true
+				err = fmt.Errorf("%w: %s", ErrUnsupported, r.what)
+			case subError:
+				m.done = true
+				err = r.err
+			default:
+				panic(r)
+			}
+		}
+	}()
+	ok, ball, err = m.next0()
+	return
+}
+
+func (m *Machine) next0() (ok bool, ball Term, err error) {
 	if m.done {
 		return false, nil, nil
 	}
@@ -640,7 +679,11 @@ func (m *Machine) bagof(template, goal, instances Term, set bool, cont *frame) b
 			}
 			ts := gr.ts
 			if set {
-				ts, _ = SortUnique(ts)
+				var hinges bool
+				ts, hinges = SortUnique(ts)
+				if hinges {
+					Unsupported("setof/3 result depends on the order of distinct unbound variables")
+				}
 			}
 			return Unify(List(ts...), instances, &m.W.Trail)
 		})
